@@ -27,7 +27,7 @@ constexpr int kMaxSteps = 5;
 constexpr int kMaxGates = 8;
 constexpr int kMaxExits = 3;
 
-enum StepKind { ST_GATE, ST_TASK, ST_SCHEDULE, ST_THROW, ST_DONE };
+enum StepKind { ST_GATE, ST_TASK, ST_SCHEDULE, ST_THROW, ST_DONE, ST_OBJ };  // ST_OBJ: await a task<CVal>; arg=1: constructing its result throws
 
 struct Step {
   int kind = ST_GATE;
@@ -67,6 +67,27 @@ struct CWorld {
 };
 CWorld* g_w = nullptr;
 
+// a tracked class-type task result: construction on live storage, destruction of storage that holds none
+struct CValReg { hvec<const void*> live; };
+CValReg* g_cvals = nullptr;
+struct CVal {
+  long id;
+  bool throw_on_copy;
+  void born() { usim::np_scope np; for (auto* p : g_cvals->live) if (p == this) usim_report("c02.construct-on-live", "a task result was constructed on storage that already holds one"); g_cvals->live.push_back(this); }
+  explicit CVal(long i, bool t = false) : id(i), throw_on_copy(t) { born(); }
+  CVal(const CVal& o) : id(o.id), throw_on_copy(false) {
+    if (o.throw_on_copy) { usim_probe("task result construction threw"); throw task_error{o.id + 7000}; }
+    born();
+  }
+  CVal(CVal&& o) noexcept : id(o.id), throw_on_copy(o.throw_on_copy) { born(); }
+  ~CVal() {
+    usim::np_scope np;
+    for (size_t i = 0; i < g_cvals->live.size(); ++i)
+      if (g_cvals->live[i] == this) { g_cvals->live.erase(g_cvals->live.begin() + (long)i); return; }
+    usim_report("c02.destroy-unconstructed", "a task result (id field %ld) was destroyed in storage that holds no constructed object (destroyed twice, or never constructed)", id);
+  }
+};
+
 struct Local {
   int id;
   explicit Local(int i) : id(i) {
@@ -87,6 +108,11 @@ using sched_t = decltype(std::declval<unifex::single_thread_context&>().get_sche
 void note_resume(CWorld* w, int task, int step, int expect_ctx) {
   usim::np_scope np;
   w->resumes.push_back(ResumeRec{task, step, std::this_thread::get_id(), usim_here(), expect_ctx, seq()});
+}
+
+unifex::task<CVal> obj_task(long id, bool throws) {
+  CVal local(id, throws);
+  co_return std::as_const(local);  // copy-constructs the task's result (may throw)
 }
 
 unifex::task<long> run_task(CWorld* w, int t, int ctx_now) {
@@ -116,6 +142,10 @@ unifex::task<long> run_task(CWorld* w, int t, int ctx_now) {
         case ST_TASK: {
           long v = co_await run_task(w, st.arg, ctx_now);
           co_return v;
+        }
+        case ST_OBJ: {
+          CVal v = co_await obj_task(300 + t * 10 + s, st.arg == 1);
+          co_return v.id;
         }
         case ST_THROW: throw task_error{7000 + t * 10 + s};
         case ST_DONE: co_await unifex::just_done(); co_return 0;
@@ -174,6 +204,7 @@ MRes model_task(CWorld* w, int t, int* ctx_now) {
       }
       case ST_SCHEDULE: *ctx_now = st.arg; continue;
       case ST_THROW: r = MRes{CH_ERROR, 7000 + t * 10 + s}; break;
+      case ST_OBJ: r = st.arg == 1 ? MRes{CH_ERROR, 7300 + t * 10 + s} : MRes{CH_VALUE, 300 + t * 10 + s}; break;
       case ST_DONE: r = MRes{CH_DONE, 0}; break;
     }
     if (r.ch == CH_DONE) { *ctx_now = entry_ctx; return r; }  // done is not catchable: unwinds
@@ -190,6 +221,7 @@ MRes model_task(CWorld* w, int t, int* ctx_now) {
 
 void body_coro(void*) {
   CWorld* w;
+  { usim::np_scope np; g_cvals = new CValReg(); }
   { usim::np_scope np; w = new CWorld(); g_w = w; memset(w->task_end_seq, 0, sizeof w->task_end_seq); memset(w->task_entered, 0, sizeof w->task_entered); }
   // ---- plan: task 0 is the root; task i may await tasks > i (bounded nesting)
   w->ntasks = draw_range(1, kMaxTasks);
@@ -203,7 +235,7 @@ void body_coro(void*) {
       if (k < 5 && w->ngates < kMaxGates) { st.kind = ST_GATE; st.arg = w->ngates++; }
       else if (k < 7 && t + 1 < w->ntasks) { st.kind = ST_TASK; st.arg = t + 1 + draw(w->ntasks - t - 1); }
       else if (k < 8) { st.kind = ST_SCHEDULE; st.arg = 1 + draw(2); }
-      else if (k < 9) { st.kind = draw(3) == 0 ? ST_THROW : ST_DONE; }
+      else if (k < 9) { int q = draw(4); st.kind = q == 0 ? ST_THROW : q == 1 ? ST_DONE : ST_OBJ; if (st.kind == ST_OBJ) st.arg = draw(3) == 0; }
       else if (w->ngates < kMaxGates) { st.kind = ST_GATE; st.arg = w->ngates++; }
       else { st.kind = ST_SCHEDULE; st.arg = 1 + draw(2); }
       st.guarded = draw(4) == 0;
@@ -249,7 +281,7 @@ void body_coro(void*) {
       o += snprintf(buf + o, sizeof buf - o, "T%d[x%d:", t, w->tasks[t].nexits);
       for (int s = 0; s < w->tasks[t].nsteps; ++s) {
         Step& st = w->tasks[t].steps[s];
-        const char* nm = st.kind == ST_GATE ? "g" : st.kind == ST_TASK ? "t" : st.kind == ST_SCHEDULE ? "s" : st.kind == ST_THROW ? "throw" : "done";
+        const char* nm = st.kind == ST_GATE ? "g" : st.kind == ST_TASK ? "t" : st.kind == ST_SCHEDULE ? "s" : st.kind == ST_THROW ? "throw" : st.kind == ST_OBJ ? "obj" : "done";
         o += snprintf(buf + o, sizeof buf - o, "%s%s%d%s", s ? "," : "", nm, st.arg, st.guarded ? "?" : "");
         if (st.kind == ST_GATE) o += snprintf(buf + o, sizeof buf - o, "(%s%s)", ch_name(w->gates[st.arg].outcome), w->gates[st.arg].mode ? "" : "!");
       }
@@ -343,6 +375,9 @@ void body_coro(void*) {
     if (r.channel == CH_DONE) usim_probe("task done");
     if (r.channel == CH_ERROR) usim_probe("task error");
     if (r.channel == CH_VALUE) usim_probe("task value");
+    KIT_CHECK(g_cvals->live.empty(), "c02.leak-object", "%zu class-type task result(s) were never destroyed", g_cvals->live.size());
+    delete g_cvals;
+    g_cvals = nullptr;
     delete w;
     g_w = nullptr;
   }
